@@ -347,15 +347,15 @@ def subsetParent (count : Nat) (index : Int) : Except Err Nat := pyIndex count i
 /-- `FullResolutionFetcher._set_index` (ortho_rectify/base.py:122-133): non-negative and below the SICD count -/
 def fetcherIndexOK (count : Nat) (index : Int) : Bool := decide (0 ≤ index) && decide (index < count)
 
-/-- `FullResolutionFetcher.__getitem__` (336-338): `verify_subscript(subscript, self.data_size)` with the size of image
-    `index`, then `self.reader.read(*subscript, index=self.index)` -/
+/-- `FullResolutionFetcher.__getitem__`: `verify_subscript(subscript, self.data_size)` with the size of image `index`, then
+    `self.reader.read(*subscript, index=self.index, squeeze=False)` (a block of a single row or column keeps both dimensions) -/
 def fetcherGetitem (r : List Image) (index : Nat) (subscript : List SubEntry) : Except Err Sel :=
   match r[index]? with
   | Option.none => .error .indexError
   | some im =>
     match verifySub im.fshape subscript with
     | Option.none => .error .valueError
-    | some ts => readerRead r.length (ts.map (fun t => PyVal.slice t.toPy)) index true
+    | some ts => readerRead r.length (ts.map (fun t => PyVal.slice t.toPy)) index false
 
 /-- `_full_row_resolution` / `_full_column_resolution` (261, 294) and `OrthorectificationHelper` (ortho_methods.py:855):
     `self.reader[(row_range, col_range, self.index)]` -/
